@@ -297,6 +297,8 @@ def run(ctx):
                         "FEB / syncvar / sinc primitives behave as the small cell and counter specs of Kernel/Ret.v (C01/C03/C10)",
                         "status probes are snapshots: emptiness between probes is the theorem's part"]
     verdict(ctx, pr, mismatches, oracle_fail)
+    from . import _c05_team          # extension T: micro-step machine of the finish protocol as acceptor of the real event order
+    _c05_team.run_team(ctx, quick)
 
 
 def verdict(ctx, pr, mismatches, oracle_fail):
